@@ -1,7 +1,109 @@
 import Mustache.Basic.LineIO
+import Mustache.Model.Events
+import Mustache.Spec.Events
+/-!
+Line-protocol driver of the event-manager model (C15). Reads the op file of
+`harness/events_driver.cpp` on stdin; for every op prints
+
+  `M <i> <op> <result> | [id=<n>] m<k>=<slot table> …`   — the model (same text as the harness line)
+  `S <i> <op> <result>`                                   — the specification (property oracle)
+
+An op outside the contract (`Model.Events.legal`) is reported as `illegal` and skipped by both.
+A line `reset` ends the current history (`end` is printed) and starts a new one from the initial state,
+so that many histories can be evaluated by one driver process.
+-/
 namespace Mustache.Driver.Events
-/-- stub, replaced when the model lands -/
+open Mustache.Model.Events
+
+def parseOp (l : String) : Option Op :=
+  match Mustache.words l with
+  | ["newManager"] => some .newManager
+  | ["dropManager", m] => m.toNat?.map .dropManager
+  | ["newReceiver", t] => t.toNat?.map .newReceiver
+  | ["subscribeFn", m, t] => do some (.subscribeFn (← m.toNat?) (← t.toNat?))
+  | ["subscribe", m, r] => do some (.subscribe (← m.toNat?) (← r.toNat?))
+  | ["unsubscribe", r] => r.toNat?.map .unsubscribe
+  | ["unsubscribeAt", m, r] => do some (.unsubscribeAt (← m.toNat?) (← r.toNat?))
+  | ["dropReceiver", r] => r.toNat?.map .dropReceiver
+  | ["post", m, t] => do some (.post (← m.toNat?) (← t.toNat?))
+  | _ => none
+
+def opName : Op → String
+  | .newManager => "newManager"
+  | .dropManager _ => "dropManager"
+  | .newReceiver _ => "newReceiver"
+  | .subscribeFn _ _ => "subscribeFn"
+  | .subscribe _ _ => "subscribe"
+  | .unsubscribe _ => "unsubscribe"
+  | .unsubscribeAt _ _ => "unsubscribeAt"
+  | .dropReceiver _ => "dropReceiver"
+  | .post _ _ => "post"
+
+def csv (l : List Nat) : String := ",".intercalate (l.map toString)
+
+def showOut : Out → String
+  | .mgr m => s!"m={m}"
+  | .rcv r => s!"r={r}"
+  | .ok => "ok"
+  | .delivered l => "delivered=" ++ (if l.isEmpty then "-" else csv l)
+  | .illegal => "illegal"
+  | .ub => "UB"
+
+/-- event type whose process-global id the harness reports after the op -/
+def opType (s : State) : Op → Option TypeName
+  | .subscribeFn _ T => some T
+  | .post _ T => some T
+  | .subscribe _ r => (s.rcvs[r]?).map (·.ty)
+  | .unsubscribeAt _ r => (s.rcvs[r]?).map (·.ty)
+  | _ => none
+
+def showSlots (ids : List TypeName) (sl : Slots) : String :=
+  if sl.isEmpty then "." else
+    "/".intercalate ((List.range sl.length).map fun i =>
+      match sl[i]? with
+      | some (some l) =>
+        (match ids[i]? with | some T => s!"E{T}:" | none => "E?:") ++ csv l
+      | _ => "-")
+
+def showInternals (s : State) (ty : Option TypeName) : String :=
+  let idPart := match ty with
+    | some T => (match idOf s.typeIds T with | some i => s!" id={i}" | none => " id=?")
+    | none => ""
+  let ms := (List.range s.mgrs.length).filterMap fun k =>
+    match s.mgrs[k]? with
+    | some mg => if mg.alive then some s!" m{k}={showSlots s.typeIds mg.slots}" else none
+    | none => none
+  idPart ++ String.join ms
+
+structure DS where
+  i : Nat := 0
+  m : State := State.init
+  sp : Mustache.Spec.Events.State := Mustache.Spec.Events.State.init
+  bad : Bool := false
+
 def main (_args : List String) : IO UInt32 := do
-  IO.eprintln "driver: model Events not built yet"
-  return 2
+  let out ← IO.getStdout
+  let fin ← Mustache.foldStdin (init := ({} : DS)) fun st l => do
+    if l == "reset" then
+      out.putStrLn "end"
+      return { bad := st.bad }
+    match parseOp l with
+    | none =>
+      IO.eprintln s!"events driver: cannot parse line: {l}"
+      return { st with bad := true }
+    | some op =>
+      let name := opName op
+      if !legal st.m op then
+        out.putStrLn s!"M {st.i} {name} illegal"
+        out.putStrLn s!"S {st.i} {name} illegal"
+        return { st with i := st.i + 1 }
+      let ty := opType st.m op
+      let (m', o) := step st.m op
+      let (sp', so) := Mustache.Spec.Events.step st.sp op
+      out.putStrLn s!"M {st.i} {name} {showOut o} |{showInternals m' ty}"
+      out.putStrLn s!"S {st.i} {name} {showOut so}"
+      return { st with i := st.i + 1, m := m', sp := sp' }
+  out.putStrLn "end"
+  return (if fin.bad then 3 else 0)
+
 end Mustache.Driver.Events
